@@ -54,7 +54,12 @@ RULE = (
     "remote endpoint has seen EOF/RST one virtual second after the report, and send_data() on it raises; a "
     "listener-initiated disconnect() returns (or its task is cancelled) within the 200 s horizon and every library "
     "call of the driver returns within 60 virtual seconds (a dead-locked library ends as a violation, not as a hang); "
-    "a relayed ConnectToPeer that does not lead to a connection is answered with CannotConnect; at B every connection that was ever reported has CLOSED "
+    "a relayed ConnectToPeer that does not lead to a connection is answered with CannotConnect; slow closes (the "
+    "library-side transport reports is_closing() at once and confirms the close 0.5..4.5 s later) with a checkpoint "
+    "in the middle of the CLOSING window, checkpoints in the middle of a slow CLOSING / CLOSED listener, and a CLOSED "
+    "listener that ends with CancelledError: a connection last reported CLOSING with an open socket is still "
+    "registered if it ever was, and at the moment CLOSED is delivered to the listener it is no longer registered; "
+    "at B every connection that was ever reported has CLOSED "
     "exactly once, as the last report; the server connection alone may restart with CONNECTING after CLOSED. "
     "Non-trivial = a connection ended before CONNECTED / before its init message, or a fault position was hit while "
     "the attempt was running, or two endings overlapped (two disconnect calls, disconnect in the iteration of an "
@@ -67,8 +72,10 @@ ASSUMPTIONS = [
     "same code as for P/D",
     "quiescence horizon: 15 s after the last scripted event (checkpoint A) and 200 virtual seconds more (checkpoint B); "
     "all library timeouts involved are <= 70 s (direct 10 s + indirect 60 s, read 60 s, write 10 s)",
-    "a connection in state CLOSING at a checkpoint may or may not be registered (the property speaks of open / being "
-    "opened connections)",
+    "a connection whose last report is CLOSING and whose socket is still open counts as open: it has to be registered "
+    "if it ever was; it leaves the registry exactly when CLOSED is reported (network.py: remove on CLOSED), checked at "
+    "the moment the report is delivered to the listener and at checkpoints inside slow-close / slow-listener windows",
+    "slow closes are confirmed after 0.5..4.5 s, i.e. before DISCONNECT_TIMEOUT (5 s) gives up waiting",
     "'still-running attempt' is decided by looking for a live task whose coroutine stack executes "
     "DataConnection.connect on that object",
     "the 'third init class' ending registers a harness subclass of PeerInitializationMessage (id 7) to reach the "
@@ -120,6 +127,7 @@ def conn_strategy(draw, i):
         'start': draw(st.integers(0, 6)),
         'ending': draw(st.sampled_from(ENDINGS)),
         'end_at': draw(st.integers(0, 4)),
+        'slow_close': draw(st.sampled_from([0, 0, 0, 1, 3, 6, 9])),
         'pre': draw(st.integers(0, 2)),
         'post': draw(st.integers(0, 2)),
         'local_pre': draw(st.integers(0, 1)),
@@ -165,6 +173,7 @@ def case_strategy(draw):
         'listener_dc': draw(st.none() | st.none() | st.none() | st.fixed_dictionaries({
             'state': st.sampled_from(['CONNECTED', 'CONNECTED'] + LDC_STATES), 'who': st.sampled_from(LDC_WHO),
             'reason': st.sampled_from(REASONS)})),
+        'listener_cancel': draw(st.sampled_from([False, False, False, False, True])),
         'slow': draw(st.none() | st.fixed_dictionaries({
             'state': st.sampled_from(['CONNECTED', 'CONNECTED'] + SLOW_STATES),
             'iters': st.integers(0, 4), 'ms': st.sampled_from([0, 0, 1, 3, 5])})),
@@ -288,6 +297,21 @@ def extra_cases(tier):
                 cases.append(dict(base, mode='race', conns=[_base_conn(
                     dir='ctp', user=k, start=k, obf=obf, adv=adv, api='create', direct=direct, indirect='silent',
                     direct_delay=2, indirect_delay=3) for k in range(n)]))
+    # slow closes (checkpoint inside the CLOSING window), slow listeners on CLOSING / CLOSED, a CLOSED listener that
+    # ends with CancelledError
+    def pair(ending, slow_close):
+        return [_base_conn(dir='out', user=0, api='create', direct='accept', indirect='cannot', direct_delay=2,
+                           indirect_delay=3, ending=ending, slow_close=slow_close, local_pre=1),
+                _base_conn(dir='in', user=1, start=1, init='ok', init_at=0, ending=ending, slow_close=slow_close)]
+    for ending in ('local', 'eof', 'write-fail', 'reset'):
+        for slow_close in (1, 3, 9):
+            cases.append(dict(base, mode='race', conns=pair(ending, slow_close)))
+        for state in ('CLOSING', 'CLOSED'):
+            for iters, ms in ((3, 0), (0, 5)):
+                cases.append(dict(base, mode='race', conns=pair(ending, 0),
+                                  slow={'state': state, 'iters': iters, 'ms': ms}))
+        cases.append(dict(base, mode='race', conns=pair(ending, 0), listener_cancel=True))
+        cases.append(dict(base, mode='fallback', conns=pair(ending, 3), listener_cancel=True, teardown_at_a=True))
     for mode in ('race', 'fallback'):
         cases.append(dict(base, mode=mode, conns=[_base_conn(
             dir='out', adv='none', api='create', direct='accept', indirect='pierce', direct_delay=2, indirect_delay=3)]))
@@ -348,6 +372,7 @@ def _sanitise(case):
             'start': _int(s.get('start'), 0, 10),
             'ending': _pick(s.get('ending'), ENDINGS, 'none'),
             'end_at': _int(s.get('end_at'), 0, 6),
+            'slow_close': _int(s.get('slow_close'), 0, 9),
             'pre': _int(s.get('pre'), 0, 3),
             'post': _int(s.get('post'), 0, 3),
             'local_pre': _int(s.get('local_pre'), 0, 2),
@@ -397,6 +422,7 @@ def _sanitise(case):
                          'who': _pick(case['listener_dc'].get('who'), LDC_WHO),
                          'reason': _pick(case['listener_dc'].get('reason'), REASONS)}
                         if isinstance(case.get('listener_dc'), dict) else None),
+        'listener_cancel': bool(case.get('listener_cancel')),
         'slow': ({'state': _pick(case['slow'].get('state'), SLOW_STATES), 'iters': _int(case['slow'].get('iters'), 0, 6),
                   'ms': _int(case['slow'].get('ms'), 0, 20)} if isinstance(case.get('slow'), dict) else None),
         'teardown_at_a': bool(case.get('teardown_at_a')),
@@ -461,6 +487,8 @@ class _Rec:
         self.send_after_closed = None
         self.cancelled_in_listener = []
         self.send_data_after_closed = None
+        self.entry_violations = []          # registry checks made at the moment a state report is delivered
+        self.was_registered = False
         self.listener_dc = None             # ['started'|'returned', state, time] of the listener-initiated disconnect
         self.reporting = []                 # states whose (slow) listener invocation is suspended right now
         self.closed_during_connected_report = False
@@ -490,7 +518,7 @@ def _execute(case):
     recs = {}            # id(obj) -> _Rec
     order = []           # recs in order of first sight
     notes = {'outcomes': {}, 'fault_fired': None, 'fault_live': False, 'checkpoints': [], 'overlap': False,
-             'attempt_iters': [0] * len(conns), 'exceptions': [], 'hung': []}
+             'attempt_iters': [0] * len(conns), 'exceptions': [], 'hung': [], 'w_snapshots': 0}
 
     def rec_of(obj):
         r = recs.get(id(obj))
@@ -529,6 +557,25 @@ def _execute(case):
                     r.tr = w.transport
                 if event.state == ConnectionState.CLOSED and r.written_at_closed is None and r.tr is not None:
                     r.written_at_closed = r.tr.bytes_written
+            if isinstance(conn, PeerConnection):
+                registered = conn in network.peer_connections
+                if event.state == ConnectionState.CLOSED and registered:
+                    r.entry_violations.append('registered-when-closed-reported')
+                elif event.state == ConnectionState.CLOSING and r.was_registered and not registered:
+                    r.entry_violations.append('unregistered-when-closing-reported')
+                r.was_registered = r.was_registered or registered
+                # checkpoints inside the window of a slow close / of a slow listener
+                delay = None
+                if event.state == ConnectionState.CLOSING and getattr(r.tr, '_c10_slow_close', None):
+                    delay = r.tr._c10_slow_close / 2.0
+                if slow is not None and slow['ms'] and slow['state'] == event.state.name \
+                        and event.state in (ConnectionState.CLOSING, ConnectionState.CLOSED):
+                    # (not inside a CONNECTING / CONNECTED report: an accepted connection is only registered after
+                    # its CONNECTED report, that window is not a quiescent moment)
+                    delay = slow['ms'] / 2000.0 if delay is None else delay
+                if delay is not None and notes['w_snapshots'] < 6:
+                    notes['w_snapshots'] += 1
+                    loop.call_later(delay + 0.000137, snapshot, 'W')
             if event.state == ConnectionState.CLOSING and 'CONNECTED' in r.reporting:
                 r.closed_during_connected_report = True
             r.reporting.append(event.state.name)
@@ -552,6 +599,13 @@ def _execute(case):
                     except Exception as exc:   # disconnect is documented not to raise
                         notes['exceptions'].append(('disconnect(in listener)', type(exc).__name__, repr(exc)))
                     r.listener_dc[0] = 'returned'
+                if c['listener_cancel'] and event.state == ConnectionState.CLOSED and isinstance(conn, PeerConnection):
+                    # a listener that ends with CancelledError although its task is not cancelled: it awaits something
+                    # of its own that gets cancelled (EventBus.emit only swallows Exception)
+                    own = loop.create_future()
+                    loop.call_soon(own.cancel)
+                    notes['listener_cancelled'] = True
+                    await own
             except asyncio.CancelledError:
                 # the task that reports the state was cancelled while this (slow) listener was suspended
                 r.cancelled_in_listener.append(event.state.name)
@@ -562,6 +616,7 @@ def _execute(case):
         async def on_msg(event):
             r = rec_of(event.connection)
             r.msgs.append(len(r.states))
+            r.was_registered = r.was_registered or event.connection in network.peer_connections
         bus.register(ConnectionStateChangedEvent, on_state)
         bus.register(MessageReceivedEvent, on_msg)
         notes['_keep'] = (on_state, on_msg)   # the bus holds its listeners weakly
@@ -728,8 +783,29 @@ def _execute(case):
                 await asyncio.sleep(d)
 
         # -- what happens on an established connection -------------------------------------------
+        def make_slow_close(tr, delay):
+            """The close is confirmed late (peer stopped reading with data in the send buffer): is_closing() at once,
+            connection_lost / EOF towards the peer after ``delay`` seconds (< DISCONNECT_TIMEOUT)."""
+            def close():
+                if tr._closing:
+                    return
+                tr._closing = True
+
+                def finish():
+                    if tr._lost:
+                        return
+                    tr._lost = True
+                    tr._protocol.connection_lost(None)
+                    tr._link.side_closed(tr._index)
+                loop.call_later(delay, finish)
+            tr.close = close
+            tr._c10_slow_close = delay
+
         async def established(i, spec, conn):
             link, ep, tr = link_of(conn)
+            if spec['slow_close'] and tr is not None and not tr._closing:
+                make_slow_close(tr, spec['slow_close'] * 0.5)
+                notes['slow_close'] = True
             typ = conn.connection_type if conn.connection_type in ('P', 'D') else spec['typ']
 
             def peer_send(n):
@@ -969,17 +1045,25 @@ def _execute(case):
                     if not isinstance(side, simnet.MemTransport) or side.dead or side is srv_tr:
                         continue
                     if any(cn._writer is not None and cn._writer.transport is side and
-                           cn.state == ConnectionState.CONNECTED for cn in reg):
+                           cn.state in (ConnectionState.CONNECTED, ConnectionState.CLOSING) for cn in reg):
                         continue
                     owner = next((k for k, r in recs.items() if r.tr is side), None)
+                    if owner is not None and recs[owner].states and recs[owner].states[-1][0] == 'CLOSING':
+                        # being closed right now (e.g. before it was ever registered); whether a CLOSING connection
+                        # has to be registered is decided by 'closing_missing' below
+                        continue
                     open_unowned.append((repr(side._extra.get('peername')), owner))
-            closed_open, remote_unaware = [], []
+            closed_open, remote_unaware, closing_missing = [], [], []
             for k, r in recs.items():
                 if not isinstance(r.obj, PeerConnection) or not r.states:
                     continue
                 w = r.obj._writer
                 if w is not None:
                     r.tr = w.transport       # also streams installed without any state report
+                if r.obj in reg:
+                    r.was_registered = True
+                elif r.states[-1][0] == 'CLOSING' and r.was_registered and r.tr is not None and not r.tr.dead:
+                    closing_missing.append(k)
                 if r.states[-1][0] != 'CLOSED' or r.tr is None:
                     continue
                 if not r.tr.dead:
@@ -992,6 +1076,7 @@ def _execute(case):
                 'label': label,
                 'time': round(loop.time() - t0, 4),
                 'closed_open': closed_open,
+                'closing_missing': closing_missing,
                 'remote_unaware': remote_unaware,
                 'registry': [id(cn) for cn in reg],
                 'connecting_live': live,
@@ -1197,6 +1282,11 @@ def _execute(case):
                             f'{where}: {desc(r)} reported {sq} but is not in network.peer_connections ({ctx_txt})')
             elif last == 'CONNECTING' and k in cp['connecting_live']:
                 once(k, 'C10/registry-missing:CONNECTING', f'{where}: {desc(r)} ({ctx_txt})')
+        for k in cp['closing_missing']:
+            if k not in contaminated and k not in explained:
+                once(k, f'C10/registry-missing:CLOSING:{direction(recs[k])}',
+                     f'{where}: {desc(recs[k])} reported {seq_at(k)}: CLOSED has not been reported, the socket is still '
+                     f'open, but the connection already left network.peer_connections ({ctx_txt})')
         for k in cp['closed_open']:
             if k not in contaminated and k not in explained:
                 once(k, f'C10/closed-but-socket-open:{direction(recs[k])}',
@@ -1247,12 +1337,24 @@ def _execute(case):
             res.violate(f'C10/never-closed:last={sq[-1]}:{direction(r)}',
                         f'{desc(r)} reported {sq}; {B_SETTLE + A_SETTLE:.0f} s after the last scripted event it has '
                         f'not been reported CLOSED ({ctx_txt})')
+    for r in order:
+        if isinstance(r.obj, PeerConnection) and id(r.obj) not in contaminated:
+            for what in sorted(set(r.entry_violations)):
+                if what == 'registered-when-closed-reported':
+                    res.violate(f'C10/registered-when-closed-reported:{direction(r)}',
+                                f'{desc(r)} reported {[s[0] for s in r.states]}: at the moment CLOSED was delivered to '
+                                f'the listener the connection was still in network.peer_connections ({ctx_txt})')
+                else:
+                    res.violate(f'C10/registry-missing:CLOSING:at-report:{direction(r)}',
+                                f'{desc(r)} reported {[s[0] for s in r.states]}: at the moment CLOSING was delivered to '
+                                f'the listener (socket open, CLOSED not reported) the connection had already left '
+                                f'network.peer_connections ({ctx_txt})')
     for api, tname, text in notes['exceptions']:
         res.violate(f'C10/unexpected-exception:{tname}@{api}', text)
     for api in sorted(set(notes['hung'])):
         res.violate(f'C10/call-never-returns:{api}', f'{api} did not return within 60 virtual seconds ({ctx_txt})')
     # a relayed ConnectToPeer that did not lead to a connection is answered with CannotConnect (network.py)
-    if fault is None and c['server'] is None and c['listener_dc'] is None:
+    if fault is None and c['server'] is None and c['listener_dc'] is None and not c['listener_cancel']:
         for i, spec in enumerate(conns):
             if spec['dir'] == 'ctp' and notes['outcomes'].get(i) == 'ctp-not-established' \
                     and sum(1 for x in conns if x['user'] == spec['user']) == 1 \
@@ -1294,6 +1396,12 @@ def _execute(case):
         res.label('registered-connecting-attempt-at-E')
     if c['server'] is not None:
         res.label('server-fault')
+    if notes.get('slow_close'):
+        res.label('slow-close')
+    if notes['w_snapshots']:
+        res.label('checkpoint-inside-window')
+    if notes.get('listener_cancelled'):
+        res.label('listener-ended-with-CancelledError')
     for e in loop_errors:
         res.label('loop-error:' + str(e.get('exc_type')))
     stats['notes'] = notes
